@@ -279,12 +279,19 @@ pub fn check_tracks(w: &mut World, i: usize, at: &str) {
 
 const ENT: &[&str] = &["user", "alice", "project.memvid"];
 const SLOT: &[&str] = &["employer", "location", "food"];
+// "age" is a built-in slot whose schema wants a number: the values generated here never are, so
+// those cards take the accepted-with-a-warning branch of put_memory_card (C26 / C27 generator only)
+const SLOT_EXT: &[&str] = &["employer", "location", "food", "age"];
 
 pub fn gen_card(r: &mut Rng, times: &[i64], n: u64) -> CardSpec {
+    gen_card_from(r, times, n, SLOT)
+}
+
+fn gen_card_from(r: &mut Rng, times: &[i64], n: u64, slots: &[&str]) -> CardSpec {
     let t = *r.pickv(times);
     CardSpec {
         entity: r.pick(ENT).to_string(),
-        slot: r.pick(SLOT).to_string(),
+        slot: r.pick(slots).to_string(),
         value: format!("value-{n}"),
         kind: r.below(7) as u8,
         event_date: if r.chance(1, 2) { Some(t) } else { None },
@@ -339,7 +346,7 @@ pub fn gen_cards(seed: u64, tier: crate::checks::Tier, derived: bool) -> Scenari
         match r.weighted(&[w_card, 8, 4, 4, 2, 2, w_trip, 2, 2]) {
             0 => {
                 let k = if r.chance(1, 3) { r.range(2, 5) } else { 1 };
-                ops.push(Op::PutCards((0..k).map(|j| gen_card(&mut r, &times, n * 10 + j)).collect()));
+                ops.push(Op::PutCards((0..k).map(|j| gen_card_from(&mut r, &times, n * 10 + j, SLOT_EXT)).collect()));
             }
             1 => {
                 let t = match r.below(5) {
@@ -348,7 +355,7 @@ pub fn gen_cards(seed: u64, tier: crate::checks::Tier, derived: bool) -> Scenari
                     2 => Some(*r.pickv(&times) - 1),
                     _ => Some(*r.pickv(&times) + r.range(0, 2) as i64),
                 };
-                ops.push(Op::CardQuery { entity: r.pick(ENT).to_string(), slot: r.pick(SLOT).to_string(), t });
+                ops.push(Op::CardQuery { entity: r.pick(ENT).to_string(), slot: r.pick(SLOT_EXT).to_string(), t });
             }
             // derived mode, one run in three: commits go through the bulk path (records applied,
             // no index rebuild), which keeps its own bookkeeping of pending inserts
@@ -398,7 +405,7 @@ pub fn gen_cards(seed: u64, tier: crate::checks::Tier, derived: bool) -> Scenari
     ops.push(Op::Open);
     ops.push(Op::Check);
     for _ in 0..3 {
-        ops.push(Op::CardQuery { entity: r.pick(ENT).to_string(), slot: r.pick(SLOT).to_string(), t: Some(*r.pickv(&times)) });
+        ops.push(Op::CardQuery { entity: r.pick(ENT).to_string(), slot: r.pick(SLOT_EXT).to_string(), t: Some(*r.pickv(&times)) });
     }
     ops.push(Op::Close);
     ops.push(Op::OpenRo);
